@@ -278,6 +278,7 @@ class Interp:
         self.prog = prog
         self.K = K
         self.K_ret = 3
+        self.unroll_max_blocks = 14
         self.no_join_bodies = set()
         self.max_depth = max_depth
         self.infos = {}
@@ -1539,8 +1540,35 @@ class Interp:
                     route(tg, s2)
         return backs, exits
 
+    def try_unroll(self, ctx, h, ins, limit=9):
+        """exact unrolling of a small loop: returns exits if the loop is left
+        on every path within `limit` iterations, else None"""
+        exits = []
+        cur = list(ins)
+        saved_events = len(self.events)
+        saved_stats = dict(self.stats)
+        for k in range(limit):
+            if not cur:
+                return exits
+            if len(cur) > self.K:
+                break
+            nxt = []
+            for s in cur:
+                backs, ex = self.run_region(ctx, h, {h: [s]})
+                exits.extend(ex)
+                nxt.extend(backs)
+            cur = nxt
+        if not cur:
+            return exits
+        del self.events[saved_events:]
+        return None
+
     def run_loop(self, ctx, h, ins):
         info = ctx.info
+        if len(info.loops[h]) <= self.unroll_max_blocks and not any(h2 != h and h2 in info.loops[h] for h2 in info.loops):
+            ex = self.try_unroll(ctx, h, [s.copy() for s in ins])
+            if ex is not None:
+                return ex
         live = info.live_in[h] | info.addr_taken
         head = self.join_states(ins, (ctx.fid, "pre", h)) if len(ins) > 1 else ins[0]
         # forget dead locals of this frame
